@@ -423,6 +423,8 @@ func checkC15(c *Ctx) {
 	wgOwner := map[string]bool{"fun.WaitGroup": true}
 	condRules(c, wgOwner, map[string]int{"W1": 1, "W2": 1, "W2b": 1, "W3": 1, "W4": 2, "W6": 1, "W8": 1})
 	ruleL4(c, wgOwner, 3)
+	// what the waiter of Launch/StartGroup waits for: every started operation is counted before it starts
+	ruleG2(c)
 }
 
 func checkC16(c *Ctx) {
@@ -507,6 +509,9 @@ func checkC20(c *Ctx) {
 	ruleQueueLinks(c)
 	ruleW9b(c)
 	condRules(c, pubsubOwners, map[string]int{"W1": 5, "W2": 5, "W2b": 5, "W3": 20, "W4": 20, "W6": 20, "W7": 2})
+	// the ring the Deque iterators walk: a push that mis-links it hides an element from them
+	ruleForcePush(c)
+	ruleX10(c, "pubsub", "Deque", 8)
 }
 
 func init() {
